@@ -126,6 +126,8 @@ def run(prog, tier):
             if f == "self.cov.gradient_terms" and node.args:
                 qstate["q"] = U(node.args[0])      # the query point of this iteration
             if f == "self.mean.gradient":
+                if len(node.args) == 2 and U(node.args[1]) != "self.mean_hyperpars":
+                    return M.atom(f"dm<{U(node.args[0])};{U(node.args[1])}>", 1)      # the mean of other hyper-parameters
                 qstate.setdefault("mean_args", []).append(U(node.args[0]) if node.args else "?")
                 return M.atom("dmq", 1)
             return base_hook(e, node, env)
